@@ -851,6 +851,11 @@ type deadlineContextWriter struct {
 
 	// quit closed once the connection is closed.
 	quit chan struct{}
+
+	// tornErr is set once a Write has left only a part of a frame on the connection.
+	// Nothing must be written after that (the connection gets closed by whoever sees the error).
+	// It is protected by semaphore.
+	tornErr error
 }
 
 // writeContext implements contextWriter.
@@ -875,13 +880,25 @@ func (c *deadlineContextWriter) writeContext(ctx context.Context, p []byte) (int
 		return 0, err
 	}
 
+	if c.tornErr != nil {
+		// A previous frame was only partially written, do not write another frame after it.
+		return 0, c.tornErr
+	}
+
 	if c.timeout > 0 {
 		err := c.w.SetWriteDeadline(time.Now().Add(c.timeout))
 		if err != nil {
 			return 0, err
 		}
 	}
-	return c.w.Write(p)
+	n, err := c.w.Write(p)
+	if n > 0 && n < len(p) {
+		c.tornErr = err
+		if c.tornErr == nil {
+			c.tornErr = io.ErrShortWrite
+		}
+	}
+	return n, err
 }
 
 func newWriteCoalescer(conn deadlineWriter, writeTimeout, coalesceDuration time.Duration,
@@ -966,6 +983,9 @@ func (w *writeCoalescer) writeFlusherImpl(timerC <-chan time.Time, resetTimer fu
 
 	var buffers net.Buffers
 	var resultChans []chan<- writeResult
+	// tornErr is set once a flush has left only a part of a frame on the connection.
+	// Nothing must be written after that (the connection gets closed by whoever sees the error).
+	var tornErr error
 
 	for {
 		select {
@@ -975,6 +995,11 @@ func (w *writeCoalescer) writeFlusherImpl(timerC <-chan time.Time, resetTimer fu
 			if err := req.ctx.Err(); err != nil {
 				// resultChan has capacity 1, so it does not block.
 				req.resultChan <- writeResult{n: 0, err: err}
+				continue
+			}
+			if tornErr != nil {
+				// A previous frame was only partially written, do not write another frame after it.
+				req.resultChan <- writeResult{n: 0, err: tornErr}
 				continue
 			}
 			buffers = append(buffers, req.data)
@@ -997,7 +1022,9 @@ func (w *writeCoalescer) writeFlusherImpl(timerC <-chan time.Time, resetTimer fu
 			return
 		case <-timerC:
 			running = false
-			w.flush(resultChans, buffers)
+			if err := w.flush(resultChans, buffers); err != nil {
+				tornErr = err
+			}
 			buffers = nil
 			resultChans = nil
 			if w.testFlushedHook != nil {
@@ -1007,7 +1034,9 @@ func (w *writeCoalescer) writeFlusherImpl(timerC <-chan time.Time, resetTimer fu
 	}
 }
 
-func (w *writeCoalescer) flush(resultChans []chan<- writeResult, buffers net.Buffers) {
+// flush writes buffers and sends the results to resultChans. It returns non-nil error
+// if only a part of some buffer was written, i.e. if nothing must be written afterwards.
+func (w *writeCoalescer) flush(resultChans []chan<- writeResult, buffers net.Buffers) (tornErr error) {
 	// Flush everything we have so far.
 	if w.timeout > 0 {
 		err := w.c.SetWriteDeadline(time.Now().Add(w.timeout))
@@ -1018,7 +1047,7 @@ func (w *writeCoalescer) flush(resultChans []chan<- writeResult, buffers net.Buf
 					err: err,
 				}
 			}
-			return
+			return nil
 		}
 	}
 	// Copy buffers because WriteTo modifies buffers in-place.
@@ -1041,9 +1070,16 @@ func (w *writeCoalescer) flush(resultChans []chan<- writeResult, buffers net.Buf
 				n:   int(n),
 				err: err,
 			}
+			if n > 0 {
+				tornErr = err
+				if tornErr == nil {
+					tornErr = io.ErrShortWrite
+				}
+			}
 			n = 0
 		}
 	}
+	return tornErr
 }
 
 // addCall attempts to add a call to c.calls.
